@@ -1,4 +1,5 @@
 import TfPwaV.Proofs.Vars
+import TfPwaV.Proofs.VarsFixed
 import TfPwaV.Proofs.PolarBound
 /-!
 # C16 — Parameter constraints survive every sequence of updates
@@ -39,14 +40,66 @@ theorem trainable_nodup_and_counted_once (A : Arith V) (cfg : Cfg) (hc : cfg.fix
   have h := inv_reachable A cfg hc d pol ops hw
   exact ⟨h.nodup, fun n hn => h.sub n hn, h.once⟩
 
-/-- FULL: `inv_reachable` for both variants of `set_same`.
-For the patched `set_same` (`cfg.fixSame = true`, followers of merged groups are re-bound) only the part of the
-invariant that does not depend on which object a follower is bound to is proved: no duplicates, only bound names,
-fresh cell ids.  Missing: "counted once" for the patched variant (needs the additional invariant that at most one
-member of a tie group is free); it is validated by the search on the patched tree. -/
+/-- For ANY history in phase order, without the naming hypothesis of `inv_reachable_patched`, and for both variants of
+`set_same`: no duplicates, only bound names, fresh cell ids.  ("Counted once" needs `WellNamed` on the patched tree:
+see `inv_reachable_patched` and the counterexample `well_named_needed`.) -/
 theorem inv_reachable_anyvariant_partial (A : Arith V) (cfg : Cfg) (d : V) (pol : Bool) (ops : List (Op V))
     (hw : WellPhased ops) : Inv0 (run A cfg (State.empty d pol) ops) :=
   run_inv0 A cfg ops 0 _ hw (empty_inv d pol).1.toInv0 (fun _ => empty_inv d pol)
+
+/-- **Constraint invariant along every well-phased history — patched tree** (`cfg.fixSame = true`, the `set_same` of
+commit 647ec00).  For every arithmetic, every initial `polar` setting and every finite history in phase order in which
+the tie calls name existing parameters of the right kind (`WellNamed`: real ties list bound names, complex ties / shared
+radii list complex parameters `c` with `c+"r"`, `c+"i"` bound, and no name is both a real variable and the base of a
+complex one): `trainable_vars` has no duplicates, contains only bound names, **no two different free names are bound to
+the same variable object**, and every group of `same_list` has at most one free member (`InvF.groups`). -/
+theorem inv_reachable_patched (A : Arith V) (cfg : Cfg) (hc : cfg.fixSame = true) (d : V) (pol : Bool)
+    (ops : List (Op V)) (hw : WellPhased ops) (hn : WellNamed A cfg (State.empty d pol) ops) :
+    InvF (run A cfg (State.empty d pol) ops) :=
+  run_invF A cfg hc ops 0 _ hw hn (empty_invF d pol) (fun _ => ⟨(empty_inv d pol).2, rfl⟩)
+
+/-- the consequences spelled out, patched tree -/
+theorem trainable_nodup_and_counted_once_patched (A : Arith V) (cfg : Cfg) (hc : cfg.fixSame = true) (d : V) (pol : Bool)
+    (ops : List (Op V)) (hw : WellPhased ops) (hn : WellNamed A cfg (State.empty d pol) ops) :
+    let s := run A cfg (State.empty d pol) ops
+    s.trainable.Nodup ∧ (∀ n ∈ s.trainable, (cellOf s n).isSome) ∧
+      ∀ a ∈ s.trainable, ∀ b ∈ s.trainable, a ≠ b → cellOf s a ≠ cellOf s b := by
+  intro s
+  have h := (inv_reachable_patched A cfg hc d pol ops hw hn).inv
+  exact ⟨h.nodup, fun n hn => h.sub n hn, h.once⟩
+
+/-- **The patched `set_same` ties everything it lists** (real names): in every state satisfying the invariant, after
+`set_same(names)` all members of the resulting group — the listed names AND all members of every merged group — are
+bound, and bound to one object. -/
+theorem set_same_ties_patched (cfg : Cfg) (hc : cfg.fixSame = true) (s : State V) (hi : InvF s) (names : List Name)
+    (hok : tieOK s (.setSame names false) = true) :
+    ∀ a ∈ (setSame cfg s names false).2, ∀ b ∈ (setSame cfg s names false).2,
+      cellOf (setSame cfg s names false).1 a = cellOf (setSame cfg s names false).1 b ∧
+      (cellOf (setSame cfg s names false).1 a).isSome = true :=
+  setSame_ties_real cfg hc s hi names hok
+
+/-- … and `set_same(names, cplx=True)` / `Variable.sameas`: the `r` parts of all members of the resulting group are
+bound to one object and so are the `i` parts. -/
+theorem set_same_ties_patched_cplx (cfg : Cfg) (hc : cfg.fixSame = true) (s : State V) (hi : InvF s) (names : List Name)
+    (hok : tieOK s (.setSame names true) = true) :
+    ∀ a ∈ (setSame cfg s names true).2, ∀ b ∈ (setSame cfg s names true).2,
+      cellOf (setSame cfg s names true).1 (a ++ "r") = cellOf (setSame cfg s names true).1 (b ++ "r") ∧
+      cellOf (setSame cfg s names true).1 (a ++ "i") = cellOf (setSame cfg s names true).1 (b ++ "i") ∧
+      (cellOf (setSame cfg s names true).1 (a ++ "r")).isSome = true ∧
+      (cellOf (setSame cfg s names true).1 (a ++ "i")).isSome = true :=
+  setSame_ties_cplx cfg hc s hi names hok
+
+/-- the resulting group always contains the listed names, so the two theorems above cover them -/
+theorem set_same_group_contains_names (cfg : Cfg) (hc : cfg.fixSame = true) (s : State V) (names : List Name) (cplx : Bool)
+    (n : Name) (hn : n ∈ names) : n ∈ (setSame cfg s names cplx).2 := by
+  unfold setSame
+  simp only [hc, if_true]
+  by_cases h : n ∈ ssNewNames names
+      (mergeLoop (ssInVars cfg s cplx) (ssHeadOf cfg s cplx) names (s.same, [], [])).2.1
+      (mergeLoop (ssInVars cfg s cplx) (ssHeadOf cfg s cplx) names (s.same, [], [])).2.2
+  · exact List.mem_append.2 (Or.inl h)
+  · refine List.mem_append.2 (Or.inr (List.mem_filter.2 ⟨(mem_ssNameList _ _ _).2 (Or.inl hn), ?_⟩))
+    simpa using h
 
 -- non-vacuity: a well-phased history with a tie, a fix and bulk updates
 example : WellPhased (V := Nat)
@@ -119,6 +172,35 @@ def arithN : Arith Nat :=
 example : ∃ s : State Nat, cellOf s "b" = some 1 ∧ FixedCell s 1 ∧ s.trainable = ["a"] :=
   ⟨run arithN ⟨false, false⟩ (State.empty 0 true) [.addReal "a" 1 true true, .addReal "b" 2 true false],
    by decide +kernel, by unfold FixedCell; decide +kernel, by decide +kernel⟩
+
+/-- a history with real ties, a complex tie chain and a shared radius that merges groups -/
+def namedHistory : List (Op Nat) :=
+  [.addReal "a" 1 true true, .addReal "b" 2 true true, .addReal "c" 3 true false, .addReal "d" 4 true true,
+   .addComplex "p" none true 5 6, .addComplex "q" none true 7 8, .addComplex "u" none true 9 10,
+   .setFix "b" none false, .setSame ["a", "b"] false, .setSame ["c", "d"] false, .setSame ["b", "d"] false,
+   .setSame ["p", "q"] true, .setSame ["u", "q"] true, .setShareR ["p", "u"], .setAllList [1, 2, 3] false]
+
+-- non-vacuity of `inv_reachable_patched`: the hypotheses hold for `namedHistory`
+example : WellPhased namedHistory ∧ WellNamed arithN ⟨true, true⟩ (State.empty 0 true) namedHistory := by
+  unfold WellPhased WellNamed; decide +kernel
+
+-- non-vacuity of `set_same_ties_patched`: a reachable state with two groups, and a call that merges them
+example : ∃ s : State Nat, InvF s ∧ s.same.length = 2 ∧ tieOK s (.setSame ["b", "d"] false) = true :=
+  ⟨run arithN ⟨true, true⟩ (State.empty 0 true) (namedHistory.take 10),
+   inv_reachable_patched arithN ⟨true, true⟩ rfl 0 true _ (by unfold WellPhased; decide +kernel)
+     (by unfold WellNamed; decide +kernel), by decide +kernel, by decide +kernel⟩
+
+/-- **`WellNamed` is needed**: with a real variable `a` and a complex parameter `a` (`ar`, `ai`), a real tie of `a`
+followed by a complex tie of `a` leaves the two free names `ar` and `xr` on one object — in the model of the patched
+tree, and (checked by the harness author) in the real code as well.  The history is in phase order but not `WellNamed`. -/
+theorem well_named_needed :
+    let ops : List (Op Nat) :=
+      [.addReal "a" 1 true true, .addComplex "a" none true 2 3, .addReal "x" 4 true true, .addComplex "x" none true 5 6,
+       .addComplex "b" none true 7 8, .setSame ["a", "x"] false, .setSame ["a", "b"] true]
+    let s := run arithN ⟨true, true⟩ (State.empty 0 true) ops
+    wellPhasedFrom 0 ops = true ∧ wellNamedFrom arithN ⟨true, true⟩ (State.empty 0 true) ops = false ∧
+      "ar" ∈ s.trainable ∧ "xr" ∈ s.trainable ∧ cellOf s "ar" = cellOf s "xr" := by
+  decide +kernel
 
 def mergeHistory : List (Op Nat) :=
   [.addReal "a" 1 true true, .addReal "b" 2 true true, .addReal "c" 3 true true, .addReal "d" 4 true true,
